@@ -231,7 +231,7 @@ PROPS["C12"] = {
     "title": "deserialize is total: it returns Ok or Err, it never panics", "level": "proof",
     "technique": "Verus proves every extracted function free of panics (unwrap / panic! / index / arithmetic) under the value-source contract; Kani reports any reachable panic or overflow in the real compiled code of the scalar, serde_json-number and derive harnesses as a failed check",
     "design_ref": "DESIGN.md §A.6, §4 C12",
-    "units": [{"kind": "verus", "unit": "impls"}, {"kind": "verus", "unit": "value"}, {"kind": "verus", "unit": "json_target"},
+    "units": [_IMPLS_UNIT, _CONT_ENUM, {"kind": "verus", "unit": "value"}, {"kind": "verus", "unit": "json_target"},
               {"kind": "kani", "group": "json-scalars", "filters": ["h_json::proofs"], "need_stub": True, "timeout": 1200, "enumerable": False},
               _kd("derive-total", ["derive_camel_2", "derive_conv8_2", "derive_tagged_first"], ["derive_plain_2", "derive_lower_2", "derive_deny4_2", "derive_fns5_2", "derive_cont9", "derive_tagged_absent", "derive_tagged_not_a_map", "derive_units"]),
               _ed("derive-total", ["derive_plain_2", "derive_camel_2", "derive_lower_2", "derive_deny4_2", "derive_fns5_2", "derive_conv8_2", "derive_cont9", "derive_tagged_first", "derive_tagged_last", "derive_tagged_absent", "derive_tagged_not_a_map", "derive_units", "derive_nest"], ["derive_conv8_3"]),
@@ -256,6 +256,8 @@ for _p in ("C07", "C08", "C09"):
 for _p in ("C01", "C02", "C03", "C04", "C12"):
     PROPS[_p]["units"] = PROPS[_p]["units"] + [_DERIVE_VERUS]
     PROPS[_p]["text"] += " Derived structs: the real expansion for five catalogue structs is proved in Verus unit `derive` against the same postconditions (unbounded payloads)."
+PROPS["C10"]["units"] = [_DERIVE_VERUS] + PROPS["C10"]["units"]
+PROPS["C10"]["text"] += " UNBOUNDED part (Verus unit `derive`): the real expansion for two unit-only enums (rename_all = lowercase with a renamed variant; rename_all = camelCase on PascalCase identifiers) is proved for every payload: the variant chosen is exactly the one whose effective name equals the string, any other string yields one UnknownValue report with all effective names in declaration order at the enum's location, any non-string one kind error listing String. Tagged enums: bounded (Kani + exhaustive native execution)."
 PROPS["C15"]["units"] = [_DERIVE_VERUS] + PROPS["C15"]["units"]
 PROPS["C15"]["text"] += " Verus unit `derive` contributes the obligation that every entry of the object is examined (the key loop runs to the end whatever the order) for the five catalogue structs."
 _FIELDSTATE_UNIT = {"kind": "verus", "unit": "fieldstate"}
